@@ -20,7 +20,7 @@ LEVEL_NOTE = "Trusted: SimNet's FIFO/priority-lane model. 'Eventually' is bounde
 RULE = ("case = DCOP + algorithm + parameters + stop_cycle + schedule + seed; non-trivial = >=2 computations with "
         "neighbours and stop_cycle>=2; distinct by sha1(case)")
 ASSUMPTIONS = ["per-channel FIFO delivery; messages buffered before start are re-injected ahead of newer ones"]
-BUDGET = {"quick": {"workers": 8, "examples": 200, "seconds": 45},
+BUDGET = {"quick": {"workers": 8, "examples": 600, "seconds": 45},
           "thorough": {"workers": 16, "examples": 3000, "seconds": 600}}
 
 
